@@ -2,6 +2,95 @@
 use crate::wire::*;
 use num_traits::CheckedMul;
 
+// ---------------------------------------------------------------------------------------------
+// api-coverage: the scalar multiplication paths named in C02's anchors (`scalar_mul`, `Mul<u32|u64|u128>`,
+// `MulAssign<u32|u64|u128> for BigUint` incl. the two-digit `mul3(&self.data, &[lo, hi])` arm of u128, and the BigInt
+// leaves for unsigned / signed scalars), in their by-value leaf form; the small types go through the promotion impls.
+// `which`: 0 `x * v`, 1 `v * x`, 2 `x *= v`.
+use core::ops::{Mul, MulAssign};
+use num_bigint::{BigInt, BigUint};
+
+fn scm_u<T>(x: BigUint, v: T, which: u8) -> BigUint
+where
+    T: Copy + Mul<BigUint, Output = BigUint>,
+    BigUint: Mul<T, Output = BigUint> + MulAssign<T>,
+{
+    match which {
+        0 => x * v,
+        1 => v * x,
+        _ => {
+            let mut y = x;
+            y *= v;
+            y
+        }
+    }
+}
+
+fn scm_i<T>(x: BigInt, v: T, which: u8) -> BigInt
+where
+    T: Copy + Mul<BigInt, Output = BigInt>,
+    BigInt: Mul<T, Output = BigInt> + MulAssign<T>,
+{
+    match which {
+        0 => x * v,
+        1 => v * x,
+        _ => {
+            let mut y = x;
+            y *= v;
+            y
+        }
+    }
+}
+
+macro_rules! scalar_dispatch {
+    ($tok:expr, |$v:ident| $body:expr, $signed:expr) => {{
+        let (ty, s) = $tok.split_once(':')?;
+        match (ty, $signed) {
+            ("u8", _) => { let $v = s.parse::<u8>().ok()?; $body }
+            ("u16", _) => { let $v = s.parse::<u16>().ok()?; $body }
+            ("u32", _) => { let $v = s.parse::<u32>().ok()?; $body }
+            ("u64", _) => { let $v = s.parse::<u64>().ok()?; $body }
+            ("u128", _) => { let $v = s.parse::<u128>().ok()?; $body }
+            ("usize", _) => { let $v = s.parse::<usize>().ok()?; $body }
+            _ => return None,
+        }
+    }};
+}
+
+macro_rules! scalar_dispatch_signed {
+    ($tok:expr, |$v:ident| $body:expr) => {{
+        let (ty, s) = $tok.split_once(':')?;
+        match ty {
+            "i8" => { let $v = s.parse::<i8>().ok()?; $body }
+            "i16" => { let $v = s.parse::<i16>().ok()?; $body }
+            "i32" => { let $v = s.parse::<i32>().ok()?; $body }
+            "i64" => { let $v = s.parse::<i64>().ok()?; $body }
+            "i128" => { let $v = s.parse::<i128>().ok()?; $body }
+            "isize" => { let $v = s.parse::<isize>().ok()?; $body }
+            _ => return None,
+        }
+    }};
+}
+
+fn scalar_op(op: &str, a: &[&str]) -> Option<String> {
+    let (w, x, tv) = match (&op[2..], a) {
+        ("mul_s", [x, tv]) => (0u8, x, tv),
+        ("s_mul", [tv, x]) => (1u8, x, tv),
+        ("mul_assign_s", [x, tv]) => (2u8, x, tv),
+        _ => return None,
+    };
+    Some(if op.starts_with("u.") {
+        let x = parse_u(x)?;
+        ok_u(&scalar_dispatch!(tv, |v| scm_u(x, v, w), false))
+    } else if tv.starts_with('i') {
+        let x = parse_i(x)?;
+        ok_i(&scalar_dispatch_signed!(tv, |v| scm_i(x, v, w)))
+    } else {
+        let x = parse_i(x)?;
+        ok_i(&scalar_dispatch!(tv, |v| scm_i(x, v, w), true))
+    })
+}
+
 pub fn handle(op: &str, a: &[&str]) -> Option<String> {
     Some(match (op, a) {
         ("u.mul_u64", [x, s]) => {
@@ -45,6 +134,13 @@ pub fn handle(op: &str, a: &[&str]) -> Option<String> {
             ok_i(&v)
         }
         ("i.checked_mul", [x, y]) => opt_i(&parse_i(x)?.checked_mul(&parse_i(y)?)),
+        // api-coverage: the TRAIT impl `CheckedMul for BigInt` (`Some(self.mul(v))`); `i.checked_mul` above resolves
+        // to the inherent `BigInt::checked_mul`
+        ("i.checked_mul_t", [x, y]) => opt_i(&CheckedMul::checked_mul(&parse_i(x)?, &parse_i(y)?)),
+        // api-coverage: scalar multiplication forms (see `scalar_op`)
+        ("u.mul_s" | "u.s_mul" | "u.mul_assign_s" | "i.mul_s" | "i.s_mul" | "i.mul_assign_s", [_, _]) => {
+            return scalar_op(op, a)
+        }
         #[cfg(num_bigint_verif)]
         ("raw.mac3", [acc, b, c]) => {
             let mut acc = parse_limbs(acc)?;
